@@ -136,6 +136,11 @@ REPLAY_BINS = {
     "C05": [("c05_stall", [])],
     "C04": [("c04_empty", [])],
     "C18": [("c18_pops", ["--features", "hooks"])],
+    "C13": [("c13_ranks", [])],
+    "C11": [("c11_build", [])],
+    "C01": [("c11_build", [])],
+    "C06": [("c11_build", [])],
+    "C12": [("c11_build", [])],
 }
 
 
